@@ -72,5 +72,13 @@ def fill(register, pending):
              'the hook build; thorough runs also fill the default 4096-slot cache',
              'deterministic simulation: seeded create/free/gc histories with a cache-capacity knob and twin-implementation oracle',
              'DESIGN.md section 4 (C18)', 'checks/c18_cache.py')
-    for pid in ('C11',):
-        pending[pid] = 'simulation check designed (DESIGN.md section 4) but not yet built at this commit; not claimed until its engine is committed'
+    register('C11', 'exploration',
+             'seeded (registration log, trees, flatten options, protocol) scenarios pickled in one process and loaded after a '
+             'tape-chosen history: same process, gc, registry drift (unregister / re-register same / global only) or a restart into '
+             'a real fresh interpreter replaying the same log, a log with one entry missing, or one entry in another namespace; '
+             'oracle O1 (==, hash, repr, paths, accessors, entries, children recursively, counts, unflatten incl. dict key order and '
+             'which registration rebuilds each node, equality with a fresh flatten there) or O2 (load raises, process stays healthy)',
+             'the "for every treespec" part is sampled; re-binding to a different registration and corrupted bytes are outside the '
+             'statement; hashes are compared within one interpreter only',
+             'deterministic simulation: crash/restart of the loading party with a replayed (possibly drifted) registration log; only pickled bytes survive',
+             'DESIGN.md section 4 (C11)', 'checks/c11_restart.py')
